@@ -8,4 +8,8 @@ CHECKS = {
         'text': "Every clause of the statement is a postcondition on the real method, proved for all complex control points and all real t (and all integer derivative orders n) as polynomial identities over the reals: point/poly/points/derivative against the Bernstein sum and its n-th derivative, the basis changes against each other, including numpy's leading-zero stripping of poly1d. Unbounded: no sampling, no loop bounds.",
         'note': "Floats are treated as mathematical reals, so 'numerically to within rounding' is covered only by the bounded companion (same contracts evaluated on random floats against the real library; reported under coverage.bounded, not counted as proved). numpy.poly1d is an assumed model (coefficient list).",
     },
+    'C19': {
+        'text': "Per-shape proof for every degree 0..8 (the range the statement gives), all values symbolic: bezier_point/bernstein against the Bernstein sum, bezier2polynomial (all branches, both orderings) against it, split_bezier/halve_bezier against the reparameterised curve, as polynomial identities; polyroots/polyroots01: for an arbitrary root list in arbitrary order (the assumed contract of numpy.roots) every isolated root that passes the filters is returned exactly once and nothing else is returned (lists of 0..8 roots); rational_limit: result equals the quotient of the first non-vanishing Taylor coefficients, ValueError only at a pole, AssertionError only for g==0 (degrees 0..4 x 0..4).",
+        'note': "Relative to the assumed contract of numpy.roots (exact roots, unspecified order) and the numpy.poly1d model; floats as reals. That a_m/b_m is the limit of f/g is a mathematical fact taken as given. Shapes beyond degree 8 (rational_limit: beyond degree 4 in the quick tier) are not claimed.",
+    },
 }
